@@ -202,8 +202,8 @@ class Connection(BaseProtocol):
 
         CONNECTION_READY.labels(ident).inc()
 
-        self.process_pending()
-        self.transport.resume_reading()
+        if not self.process_pending():
+            self.transport.resume_reading()
 
     def on_publish(self, ident, chan, payload):
         if not ident == self.ak:
